@@ -1,3 +1,146 @@
-From BiomV Require Import Model.Json Model.Validator.
-Theorem placeholder : True. Proof. exact I. Qed.
-Print Assumptions placeholder.
+(* C15: the validator accepts what the library writes and rejects structural corruption.
+   Model: Model/Validator.v (TableValidator._validate_json / _validate_hdf5 statement by
+   statement, on JSON values and on an HDF5 tree of attributes, groups and datasets),
+   Model/Json.v (Table.to_json, Table.from_json).  Proofs: Proofs/ValidatorProofs.v.
+   validate_json j = true  means: valid_table is True and no exception was raised. *)
+From Coq Require Import String.
+From Coq Require Import List Arith ZArith Bool.
+From BiomV Require Import Base.Tree Base.ListUtil Base.Matrix Model.Table Model.Json Model.Validator.
+From BiomV Require Import Proofs.JsonProofs Proofs.ValidatorProofs.
+Import ListNotations.
+Open Scope Z_scope.
+
+(* --- the validator accepts what the library writes --- *)
+
+(* writable c: a well-formed table (both axes empty or neither) whose type is in the
+   controlled vocabulary, with non-empty IDs, a non-empty generated_by and a creation date in
+   one of the validator's four ISO formats (what isoformat() gives for a naive datetime) *)
+Theorem writer_valid_json : forall c tid, writable c -> validate_json (to_json_tree c tid) = true.
+Proof. exact ValidatorProofs.writer_valid_json. Qed.
+Print Assumptions writer_valid_json.
+
+Example writer_valid_json_witness : writable witness_table.
+Proof. exact ValidatorProofs.witness_writable. Qed.
+
+(* --- a "valid" verdict guarantees the structure --- *)
+
+(* valid_doc j (Proofs/ValidatorProofs.v) says: j is an object with all twelve required keys;
+   shape is [a, b] with a, b ints; rows / columns are lists of a / b records, each an object
+   with an "id" that is non-empty (truthy and hashable) and a "metadata" that is null or an
+   object; no two IDs of an axis are equal; data is a list; matrix_type is "sparse" or
+   "dense"; matrix_element_type is one of int/str/float/unicode; sparse: every entry is
+   [x, y, v] with ints 0 <= x < a, 0 <= y < b and v of the element type (a bool is not an int);
+   dense: a rows of b values of the element type *)
+Theorem valid_sound_json : forall j, validate_json j = true -> valid_doc j.
+Proof. exact ValidatorProofs.valid_sound_json. Qed.
+Print Assumptions valid_sound_json.
+
+Example valid_sound_json_witness : validate_json (to_json_tree witness_table (K "None")) = true.
+Proof. exact ValidatorProofs.witness_valid. Qed.
+
+(* the rejections named by the property, read off soundness *)
+Theorem missing_key_rejected : forall kv k,
+  In k (map fst REQUIRED) -> jget kv k = None -> validate_json (JObj kv) = false.
+Proof. exact ValidatorProofs.missing_key_rejected. Qed.
+Print Assumptions missing_key_rejected.
+
+Theorem shape_mismatch_rejected : forall kv a b recs,
+  jget kv (K "shape") = Some (JArr [JInt a; JInt b]) ->
+  (jget kv (K "rows") = Some (JArr recs) /\ Z.of_nat (length recs) <> a
+   \/ jget kv (K "columns") = Some (JArr recs) /\ Z.of_nat (length recs) <> b) ->
+  validate_json (JObj kv) = false.
+Proof. exact ValidatorProofs.shape_mismatch_rejected. Qed.
+Print Assumptions shape_mismatch_rejected.
+
+(* an entry that is not an int triple inside the shape (out of range, negative, mistyped, malformed) *)
+Theorem bad_coordinate_rejected : forall kv a b entries e,
+  jget kv (K "shape") = Some (JArr [JInt a; JInt b]) ->
+  jget kv (K "matrix_type") = Some (JStr (K "sparse")) -> jget kv (K "data") = Some (JArr entries) ->
+  In e entries ->
+  (forall x y v, e = JArr [JInt x; JInt y; v] -> ~ (0 <= x < a /\ 0 <= y < b)) ->
+  validate_json (JObj kv) = false.
+Proof. exact ValidatorProofs.bad_coordinate_rejected. Qed.
+Print Assumptions bad_coordinate_rejected.
+
+Theorem bad_element_rejected : forall kv entries x y v met dt,
+  jget kv (K "matrix_type") = Some (JStr (K "sparse")) -> jget kv (K "data") = Some (JArr entries) ->
+  jget kv (K "matrix_element_type") = Some (JStr met) -> In (met, dt) ELEMENT_TYPES ->
+  In (JArr [x; y; v]) entries -> py_isinstance v dt = false ->
+  validate_json (JObj kv) = false.
+Proof. exact ValidatorProofs.bad_element_rejected. Qed.
+Print Assumptions bad_element_rejected.
+
+(* a record with an empty ID or with metadata that is neither an object nor null is not good_rec
+   (blank_id_not_good, bad_md_not_good) *)
+Theorem bad_record_rejected : forall kv key recs r,
+  (key = K "rows" \/ key = K "columns") -> jget kv key = Some (JArr recs) -> In r recs ->
+  ~ good_rec r -> validate_json (JObj kv) = false.
+Proof. exact ValidatorProofs.bad_record_rejected. Qed.
+Print Assumptions bad_record_rejected.
+
+Theorem blank_id_not_good : forall kv, jget kv (K "id") = Some (JStr []) -> ~ good_rec (JObj kv).
+Proof. exact ValidatorProofs.blank_id_not_good. Qed.
+Print Assumptions blank_id_not_good.
+
+Theorem bad_md_not_good : forall kv md,
+  jget kv (K "metadata") = Some md -> md <> JNull -> is_obj md = false -> ~ good_rec (JObj kv).
+Proof. exact ValidatorProofs.bad_md_not_good. Qed.
+Print Assumptions bad_md_not_good.
+
+Theorem duplicate_id_rejected : forall kv key recs i j s,
+  (key = K "rows" \/ key = K "columns") -> jget kv key = Some (JArr recs) ->
+  (i < j)%nat -> nth_error (map rec_id recs) i = Some (JStr s) -> nth_error (map rec_id recs) j = Some (JStr s) ->
+  validate_json (JObj kv) = false.
+Proof. exact ValidatorProofs.duplicate_id_rejected. Qed.
+Print Assumptions duplicate_id_rejected.
+
+(* --- an accepted numeric document loads --- *)
+
+(* with the declared shape, the declared IDs in order, and as values the declared entries
+   (sparse: entries of one coordinate are added up; dense: the rows as given) *)
+Theorem valid_loads : forall j kv rrecs crecs entries mt met dt,
+  validate_json j = true -> j = JObj kv ->
+  jget kv (K "rows") = Some (JArr rrecs) -> jget kv (K "columns") = Some (JArr crecs) ->
+  jget kv (K "data") = Some (JArr entries) -> jget kv (K "matrix_type") = Some (JStr mt) ->
+  jget kv (K "matrix_element_type") = Some (JStr met) -> In (met, dt) ELEMENT_TYPES -> numeric dt ->
+  ids_text rrecs -> ids_text crecs ->
+  exists c, from_json j = ROk c
+    /\ j_oids c = id_strs rrecs /\ j_sids c = id_strs crecs
+    /\ jget kv (K "shape") = Some (JArr [JInt (Z.of_nat (length (j_oids c))); JInt (Z.of_nat (length (j_sids c)))])
+    /\ (mt = K "sparse" -> j_mat c = dense_of_triples (length rrecs) (length crecs) (map declared_entry entries))
+    /\ (mt = K "dense" -> j_mat c = map declared_row entries).
+Proof. exact ValidatorProofs.valid_loads. Qed.
+Print Assumptions valid_loads.
+
+(* limits of the above, each with a witness document *)
+(* the validator does not require IDs to be text (the loader's coercion of such IDs is not modelled) *)
+Theorem nontext_id_accepted :
+  exists j kv recs r, validate_json j = true /\ j = JObj kv /\ jget kv (K "rows") = Some (JArr recs)
+                      /\ In r recs /\ is_str (rec_id r) = false.
+Proof. exact ValidatorProofs.nontext_id_accepted. Qed.
+Print Assumptions nontext_id_accepted.
+
+Theorem duplicate_coordinates_summed :
+  exists j c, validate_json j = true /\ from_json j = ROk c /\ get (j_mat c) 0 1 = 5 + 64.
+Proof. exact ValidatorProofs.duplicate_coordinates_summed. Qed.
+Print Assumptions duplicate_coordinates_summed.
+
+(* "numeric" is needed: element type "str" is accepted by the validator and unknown to the loader *)
+Theorem str_element_type_does_not_load :
+  exists j, validate_json j = true /\ from_json j = RErr E_KEY.
+Proof. exact ValidatorProofs.str_element_type_does_not_load. Qed.
+Print Assumptions str_element_type_does_not_load.
+
+(* --- HDF5 --- *)
+
+(* valid_h5 f: the eight attributes, the eight groups of the 2.1 specification and the eight
+   datasets are present; shape = (number of observation IDs, number of sample IDs); IDs are
+   non-empty and pairwise different; for each axis data is numeric, indices and indptr are
+   integer datasets, |indices| = |data|, |indptr| = vectors + 1, indptr starts at 0, ends at
+   |data| and never decreases, every index lies inside the other axis *)
+Theorem valid_sound_hdf5 : forall f, validate_hdf5 f = true -> valid_h5 f.
+Proof. exact ValidatorProofs.valid_sound_hdf5. Qed.
+Print Assumptions valid_sound_hdf5.
+
+Example valid_sound_hdf5_witness : validate_hdf5 witness_h5 = true.
+Proof. exact ValidatorProofs.witness_h5_valid. Qed.
